@@ -50,8 +50,8 @@ structure LState where
   /-- `roto_constants` (oldest first) -/
   store : List Nat
   /-- every run of an initialiser in time order, with the functions that were
-  defined (and finalized) at that moment -/
-  runs : List (Nat × List Nat)
+  defined (and finalized) and the constants that had been evaluated at that moment -/
+  runs : List (Nat × List Nat × List Nat)
   deriving Repr, DecidableEq
 
 def LState.new : LState := ⟨[], [], [], []⟩
@@ -59,6 +59,11 @@ def LState.new : LState := ⟨[], [], [], []⟩
 def lFuncs (items : List LItem) (p : Nat) : List (Option Nat) :=
   match items[p]? with
   | some it => it.funcs
+  | none => []
+
+def lConsts (items : List LItem) (p : Nat) : List (Option Nat) :=
+  match items[p]? with
+  | some it => it.consts
   | none => []
 
 def isSomeIn (l : List Nat) : Option Nat → Bool
@@ -83,7 +88,7 @@ def lStep (items : List LItem) (st : LState) (i : Nat) (it : LItem) : M LState :
   if it.isConst then
     let st ← lFinalize items st
     if isSomeIn st.defined it.drop then
-      .ok { st with store := st.store ++ [i], runs := st.runs ++ [(i, st.defined)] }
+      .ok { st with store := st.store ++ [i], runs := st.runs ++ [(i, st.defined, st.store)] }
     else .error .panic
   else .ok st
 
